@@ -737,26 +737,27 @@ Proof.
                          do s5 <- plain_fields rec [NM_ANN; NM_TAXA] s4 (hlen (sh s)) (obody ob) ;;
                          deep_copy_annotations_from rec s5 (hlen (sh s)) x) s3).
     { apply stspec_bind.
-      - eapply copy_append_spec with (kd := KList); try eassumption.
-        + eapply U_lt_ext; eassumption.
+      - apply (copy_append_spec _ rec f s3 l 0 KList RS I3).
+        + eapply U_lt_ext; [exact E13 | exact Uf1].
         + unfold l. lia.
-        + eapply kind_ext; eassumption.
+        + eapply kind_ext; [exact E3 | exact K2].
         + split; [reflexivity | discriminate].
         + rewrite (body_of_old s3 lt I3) by lia. destruct (hget h0 lt) as [lo|] eqn:GL; [|constructor].
           eapply old_values_vsrc; eassumption.
       - intros s4 I4 E4. apply stspec_bind.
-        + eapply plain_fields_spec with (kd := KNamespace); try eassumption.
-          * eapply U_lt_ext; [|exact Uf1]. eapply ext_trans; eassumption.
+        + apply (plain_fields_spec _ rec f _ s4 (hlen (sh s)) KNamespace RS I4).
+          * eapply U_lt_ext; [|exact Uf1]. eapply ext_trans; [exact E13 | exact E4].
           * lia.
-          * eapply kind_ext; [|exact Ky2]. eapply ext_trans; eassumption.
+          * eapply kind_ext; [|exact Ky2]. eapply ext_trans; [exact E3 | exact E4].
           * discriminate.
           * intros _. left. reflexivity.
           * eapply old_fields; [eassumption | tauto].
-        + intros s5 I5 E5. eapply dcaf_spec with (kd := KNamespace); try eassumption.
-          * eapply U_lt_ext; [|exact Uf1]. eapply ext_trans; [exact E13|]. eapply ext_trans; eassumption.
-          * destruct E5, E4, E13. lia.
-          * eapply kind_ext; [|exact Ky2]. eapply ext_trans; [exact E3|]. eapply ext_trans; eassumption.
-          * reflexivity. }
+        + intros s5 I5 E5. apply (dcaf_spec rec f s5 (hlen (sh s)) x KNamespace RS I5).
+          * eapply U_lt_ext; [|exact Uf1]. eapply ext_trans; [exact E13|]. eapply ext_trans; [exact E4 | exact E5].
+          * destruct E5 as [X5 _], E4 as [X4 _], E13 as [X13 _]. lia.
+          * eapply kind_ext; [|exact Ky2]. eapply ext_trans; [exact E3|]. eapply ext_trans; [exact E4 | exact E5].
+          * reflexivity.
+          * exact Vs. }
     assert (Hy3 : n0 <= hlen (sh s) < hlen (sh s3)) by lia.
     assert (E03 : Ext s s3) by (eapply ext_trans; eassumption).
     assert (FS := finish_spec _ s s3 (hlen (sh s)) (R x) SS E03 Hy3).
